@@ -112,13 +112,13 @@ theorem strict_accepts_only_known (paths : List Bytes) (h : accepts paths = true
   have := List.all_eq_true.mp h p hp
   simpa using this
 
-/-- non-vacuity: references of all syntactic forms -/
 /-- why every value must be expanded exactly once: os.Expand is not idempotent – a '$' inside a substituted
     value would be read as a further reference (the defect repaired by 6e45217 in rpm.packager) -/
 theorem expand_twice_differs_witness :
     let env : Env := [(b!"Z", b!"pre $Y post"), (b!"Y", b!"SECOND")]
     expand env (b!"${Z}") = b!"pre $Y post" ∧ expand env (expand env (b!"${Z}")) = b!"pre SECOND post" := by decide
 
+/-- non-vacuity: references of all syntactic forms -/
 example : expand [(b!"A", b!"x y"), (b!"B", [])] (b!"pre-${A}-$A_$B.${}$") = b!"pre-x y-.$" := by decide
 example : expandSlice [(b!"D", b!" nginx ")] [b!"$D", b!"${NONE}", b!" keep "] = [b!"nginx", b!"keep"] := by decide
 
